@@ -13,6 +13,9 @@
 From Coq Require Import Lia.
 From PegV Require Import Utf8 State Terminals Syntax Fields FieldsFacts Literals Model FuelMono.
 
+Ltac triv := first [exact I | reflexivity].
+
+
 (* ---- removing the markers ------------------------------------------------------ *)
 Definition not_memo (d : directive) : bool := match d with DMemoize => false | _ => true end.
 Definition strip_rule (r : rule) : rule :=
@@ -109,8 +112,8 @@ Definition tw {A} (r1 r2 : tres A) : Prop :=
 Lemma adv_then_tw {A} a b n (v : A) : Rst a b -> tw (adv_then a n v) (adv_then b n v).
 Proof.
   intros [E1 E2]. unfold adv_then, advance. rewrite E1, E2.
-  destruct (Nat.ltb (length (rest b)) n); [exact I|].
-  destruct (is_boundary (rest b) n); [|exact I]. split; [reflexivity|split; reflexivity].
+  destruct (Nat.ltb (length (rest b)) n); [triv|].
+  destruct (is_boundary (rest b) n); [|triv]. split; [reflexivity|split; reflexivity].
 Qed.
 
 Section Terms.
@@ -120,8 +123,8 @@ Variable tcfg : term_cfg.
 Ltac tw_tac :=
   repeat match goal with
          | |- tw (adv_then _ _ _) (adv_then _ _ _) => apply adv_then_tw; split; congruence
-         | |- tw (TErr _) (TErr _) => exact I
-         | |- tw TPanic TPanic => exact I
+         | |- tw (TErr _) (TErr _) => triv
+         | |- tw TPanic TPanic => triv
          | |- tw (match ?x with _ => _ end) (match ?x with _ => _ end) => destruct x eqn:?
          | |- tw (if ?x then _ else _) (if ?x then _ else _) => destruct x eqn:?
          end.
@@ -135,8 +138,8 @@ Proof.
   - split; [reflexivity|split; reflexivity].
   - destruct (is_ascii_ws x); [|split; [reflexivity|split; reflexivity]].
     unfold advance. cbn [rest off far].
-    destruct (Nat.ltb (length (x :: bs)) 1); [exact I|].
-    destruct (is_boundary (x :: bs) 1); [apply IH|exact I].
+    destruct (Nat.ltb (length (x :: bs)) 1); [triv|].
+    destruct (is_boundary (x :: bs) 1); [apply IH|triv].
 Qed.
 
 Lemma tw_ws a b : Rst a b -> tw (parse_Whitespace a) (parse_Whitespace b).
@@ -159,7 +162,7 @@ Proof. intros [E1 E2]. unfold parse_character_literal_insensitive. rewrite E1. t
 
 Lemma tw_eoi a b : Rst a b -> tw (parse_end_of_input scfg a) (parse_end_of_input scfg b).
 Proof.
-  intros [E1 E2]. unfold parse_end_of_input. rewrite E1. destruct (rest b) eqn:Eb; [|exact I].
+  intros [E1 E2]. unfold parse_end_of_input. rewrite E1. destruct (rest b) eqn:Eb; [|triv].
   split; [reflexivity|split; congruence].
 Qed.
 
@@ -267,11 +270,11 @@ Definition wres {A} (r1 r2 : mres A) : Prop :=
   | MFuel => True
   | MOk v1 s1 => match r2 with MOk v2 s2 => v1 = v2 /\ Rst s1 s2 | MFuel => True | _ => False end
   | MErr _ => match r2 with MErr _ => True | MFuel => True | _ => False end
-  | MPanic _ => match r2 with MPanic _ => True | MFuel => True | _ => False end
+  | MPanic p1 => match r2 with MPanic p2 => p1 = p2 | MFuel => True | _ => False end
   end.
 
 Lemma wres_fuel_r {A} (r : mres A) : wres r MFuel.
-Proof. destruct r; exact I. Qed.
+Proof. destruct r; triv. Qed.
 
 Definition okanch {A} (r : mres A) : Prop := match r with MOk _ s => an s | _ => True end.
 
@@ -340,7 +343,7 @@ Ltac pair_e ctx e st1 gl1 st2 gl2 HR HA HC :=
   pose proof (HUe ctx e st1 gl1 HA HC) as Hu;
   destruct (ev_expr evA ctx e st1 gl1) as [[?v1 ?s1|?e1|?p1|] ?ga];
   destruct (ev_expr evB ctx e st2 gl2) as [[?v2 ?s2|?e2|?p2|] ?gb];
-  cbn [fst snd wres] in Hw, Hu |- *; try contradiction; try exact I; try apply wres_fuel_r.
+  cbn [fst snd wres] in Hw, Hu |- *; try contradiction; try triv; try apply wres_fuel_r; try (match goal with |- @eq panic_site _ _ => assumption end).
 
 Ltac pair_r n st1 gl1 st2 gl2 HR HA HC :=
   let Hw := fresh "Hw" in let Hu := fresh "Hu" in
@@ -348,12 +351,12 @@ Ltac pair_r n st1 gl1 st2 gl2 HR HA HC :=
   pose proof (HUr n st1 gl1 HA HC) as Hu;
   destruct (ev_rule evA n st1 gl1) as [[?v1 ?s1|?e1|?p1|] ?ga];
   destruct (ev_rule evB n st2 gl2) as [[?v2 ?s2|?e2|?p2|] ?gb];
-  cbn [fst snd wres] in Hw, Hu |- *; try contradiction; try exact I; try apply wres_fuel_r.
+  cbn [fst snd wres] in Hw, Hu |- *; try contradiction; try triv; try apply wres_fuel_r; try (match goal with |- @eq panic_site _ _ => assumption end).
 
 Lemma W_lift {X Y} (f : X -> Y) sp1 sp2 st1 st2 (r1 r2 : tres X) gl1 gl2 :
   tw r1 r2 -> wres (fst (lift_t ustate f sp1 st1 r1 gl1)) (fst (lift_t ustate f sp2 st2 r2 gl2)).
 Proof.
-  destruct r1, r2; cbn; intro H; try contradiction; try exact I.
+  destruct r1, r2; cbn; intro H; try contradiction; try triv; try reflexivity.
   destruct H as [-> H]. split; [reflexivity|exact H].
 Qed.
 
@@ -370,7 +373,7 @@ Qed.
 Lemma W_no_fields {X} (a b : R ustate X) :
   wres (fst a) (fst b) -> wres (fst (no_fields ustate a)) (fst (no_fields ustate b)).
 Proof.
-  destruct a as [[v1 s1|e1|p1|] ga], b as [[v2 s2|e2|p2|] gb]; cbn; intro H; try contradiction; try exact I.
+  destruct a as [[v1 s1|e1|p1|] ga], b as [[v2 s2|e2|p2|] gb]; cbn; intro H; try contradiction; try triv; try assumption.
   destruct H as [_ H]. split; [reflexivity|exact H].
 Qed.
 
@@ -385,11 +388,11 @@ Lemma W_choice_loop ctx fds alts : forall c1 gl1 c2 gl2, Rst c1 c2 -> an c1 -> C
   wres (fst (choice_loop ustate scfg fcfg g evA ctx fds alts c1 gl1))
        (fst (choice_loop ustate scfg fcfg (strip g) evB ctx fds alts c2 gl2)).
 Proof.
-  induction alts as [|a alts IH]; intros c1 gl1 c2 gl2 HR HA HC; cbn [choice_loop]; [exact I|].
+  induction alts as [|a alts IH]; intros c1 gl1 c2 gl2 HR HA HC; cbn [choice_loop]; [triv|].
   rewrite own_fields_strip.
   pair_e ctx a c1 gl1 c2 gl2 HR HA HC.
-  - destruct Hw as [-> Hs]. destruct (own_fields fcfg g a) as [inner|]; [|exact I].
-    destruct (convert_arm fds inner v2); [split; [reflexivity|exact Hs]|exact I].
+  - destruct Hw as [-> Hs]. destruct (own_fields fcfg g a) as [inner|]; [|triv].
+    destruct (convert_arm fds inner v2); [split; [reflexivity|exact Hs]|triv].
   - destruct Hu as [Hc _]. apply IH; [apply Rst_record; exact HR|apply anch_record; exact HA|exact Hc].
 Qed.
 
@@ -397,9 +400,9 @@ Lemma W_seq_loop ctx fds parts : forall st1 gl1 st2 gl2 acc, Rst st1 st2 -> an s
   wres (fst (seq_loop ustate evA ctx fds parts st1 acc gl1)) (fst (seq_loop ustate evB ctx fds parts st2 acc gl2)).
 Proof.
   induction parts as [|p ps IH]; intros st1 gl1 st2 gl2 acc HR HA HC; cbn [seq_loop].
-  - destruct (order_as fds acc); [split; [reflexivity|exact HR]|exact I].
+  - destruct (order_as fds acc); [split; [reflexivity|exact HR]|triv].
   - pair_e ctx p st1 gl1 st2 gl2 HR HA HC.
-    + destruct Hw as [-> Hs]. destruct Hu as [Hc Ha]. destruct (seq_merge_vals acc v2); [apply IH; auto|exact I].
+    + destruct Hw as [-> Hs]. destruct Hu as [Hc Ha]. destruct (seq_merge_vals acc v2); [apply IH; auto|triv].
 Qed.
 
 Theorem W_expr ctx e st1 gl1 st2 gl2 : Rst st1 st2 -> an st1 -> CS gl1 ->
@@ -407,35 +410,35 @@ Theorem W_expr ctx e st1 gl1 st2 gl2 : Rst st1 st2 -> an st1 -> CS gl1 ->
 Proof.
   intros HR HA HC. destruct e; cbn [expr_step].
   - (* EChoice *)
-    destruct alts as [|a [|a2 rest]]; [exact I|apply HWe; auto|].
-    rewrite filt_strip. destruct (filt fcfg g ctx (EChoice (a :: a2 :: rest))); [|exact I].
+    destruct alts as [|a [|a2 rest]]; [triv|apply HWe; auto|].
+    rewrite filt_strip. destruct (filt fcfg g ctx (EChoice (a :: a2 :: rest))); [|triv].
     apply W_choice_loop; auto.
   - (* ESeq *)
     destruct parts as [|p [|p2 rest]]; [split; [reflexivity|exact HR]|apply HWe; auto|].
-    rewrite filt_strip. destruct (filt fcfg g ctx (ESeq (p :: p2 :: rest))); [|exact I].
+    rewrite filt_strip. destruct (filt fcfg g ctx (ESeq (p :: p2 :: rest))); [|triv].
     apply W_seq_loop; auto.
   - (* EGroup *) apply HWe; auto.
   - (* EOptional *)
     rewrite filt_strip. pair_e ctx e st1 gl1 st2 gl2 HR HA HC.
     + exact Hw.
-    + destruct (filt fcfg g ctx e) as [fds|]; [|exact I].
-      destruct (defaults fds); [split; [reflexivity|apply Rst_record; exact HR]|exact I].
+    + destruct (filt fcfg g ctx e) as [fds|]; [|triv].
+      destruct (defaults fds); [split; [reflexivity|apply Rst_record; exact HR]|triv].
   - (* EClosure *)
-    rewrite filt_strip. destruct (filt fcfg g ctx e) as [fds|]; [|exact I]. apply HWl; auto.
+    rewrite filt_strip. destruct (filt fcfg g ctx e) as [fds|]; [|triv]. apply HWl; auto.
   - (* ENeg *)
     pair_e ctx e st1 gl1 st2 gl2 HR HA HC. split; [reflexivity|exact HR].
   - (* EPos *)
     pair_e ctx e st1 gl1 st2 gl2 HR HA HC. split; [reflexivity|exact HR].
   - (* ERange *)
-    destruct (compile_range from to); try exact I.
+    destruct (compile_range from to); try triv.
     apply W_no_fields. apply W_with_ws; try assumption. intros s1 g1 s2 g2 R1 A1 C1. apply W_lift. apply tw_range. exact R1.
   - (* ELit *)
-    destruct (compile_lit (insens_guard rcfg) insensitive body); try exact I.
+    destruct (compile_lit (insens_guard rcfg) insensitive body); try triv.
     apply W_no_fields. apply W_with_ws; try assumption. intros s1 g1 s2 g2 R1 A1 C1. apply W_run_lit. exact R1.
   - (* EEoi *)
     apply W_no_fields. apply W_with_ws; try assumption. intros s1 g1 s2 g2 R1 A1 C1. apply W_lift. apply tw_eoi. exact R1.
   - (* EInclude *)
-    rewrite find_rule_strip. destruct (find_rule g rule) as [r|]; cbn [option_map]; [apply HWe; auto|exact I].
+    rewrite find_rule_strip. destruct (find_rule g rule) as [r|]; cbn [option_map]; [apply HWe; auto|triv].
   - (* EField *)
     assert (Hr : wres (fst (with_ws ustate evA ctx st1 gl1 (fun st gl => ev_rule evA typ st gl)))
                       (fst (with_ws ustate evB ctx st2 gl2 (fun st gl => ev_rule evB typ st gl)))).
@@ -443,17 +446,17 @@ Proof.
     destruct (fname_of fname) as [n|]; [|apply W_no_fields; exact Hr].
     destruct (with_ws ustate evA ctx st1 gl1 (fun st gl => ev_rule evA typ st gl)) as [[v1 s1|e1|p1|] ga];
       destruct (with_ws ustate evB ctx st2 gl2 (fun st gl => ev_rule evB typ st gl)) as [[v2 s2|e2|p2|] gb];
-      cbn [fst wres] in Hr |- *; try contradiction; try exact I.
-    + destruct Hr as [-> Hs]. destruct (postprocess (c_fields ctx) n typ v2); [split; [reflexivity|exact Hs]|exact I].
-    + destruct (postprocess (c_fields ctx) n typ v1); exact I.
+      cbn [fst wres] in Hr |- *; try contradiction; try triv; try (match goal with |- @eq panic_site _ _ => assumption end).
+    + destruct Hr as [-> Hs]. destruct (postprocess (c_fields ctx) n typ v2); [split; [reflexivity|exact Hs]|triv].
+    + destruct (postprocess (c_fields ctx) n typ v1); triv.
 Qed.
 
 Theorem W_loop ctx b plus st1 gl1 st2 gl2 it acc : Rst st1 st2 -> an st1 -> CS gl1 ->
   wres (fst (loop_step ustate scfg evA ctx b plus st1 it acc gl1)) (fst (loop_step ustate scfg evB ctx b plus st2 it acc gl2)).
 Proof.
   intros HR HA HC. unfold loop_step. pair_e ctx b st1 gl1 st2 gl2 HR HA HC.
-  - destruct Hw as [-> Hs]. destruct Hu as [Hc Ha]. destruct (extend_all acc v2); [apply HWl; auto|exact I].
-  - destruct (plus && Nat.eqb it 0); [exact I|]. split; [reflexivity|apply Rst_record; exact HR].
+  - destruct Hw as [-> Hs]. destruct Hu as [Hc Ha]. destruct (extend_all acc v2); [apply HWl; auto|triv].
+  - destruct (plus && Nat.eqb it 0); [triv|]. split; [reflexivity|apply Rst_record; exact HR].
 Qed.
 
 Lemma W_run_checks cs v : forall st1 gl1 st2 gl2, Rst st1 st2 ->
@@ -462,7 +465,7 @@ Proof.
   induction cs as [|f cs IH]; intros st1 gl1 st2 gl2 HR; cbn [run_checks]; [split; [reflexivity|exact HR]|].
   pose proof (Pcheck f v (g_user gl1) (g_user gl2)) as P.
   destruct (h_check hk f v (g_user gl1)) as [ok1 u1]. destruct (h_check hk f v (g_user gl2)) as [ok2 u2].
-  cbn in P. subst ok2. destruct ok1; [apply IH; exact HR|exact I].
+  cbn in P. subst ok2. destruct ok1; [apply IH; exact HR|triv].
 Qed.
 
 Theorem W_rule_body r st1 gl1 st2 gl2 : Rst st1 st2 -> an st1 -> CS gl1 ->
@@ -473,30 +476,30 @@ Proof.
   destruct (flags_strip r) as [F1 [F2 [F3 [F4 [F5 F6]]]]]. cbn zeta in *.
   rewrite F1, F3, F4, checks_strip. unfold gf_fuel. rewrite grammar_size_strip, get_fields_strip.
   cbn [strip_rule r_def r_name].
-  destruct (get_fields fcfg (S (grammar_size g)) g (r_def r)) as [rf| |]; try exact I.
+  destruct (get_fields fcfg (S (grammar_size g)) g (r_def r)) as [rf| |]; try triv.
   set (ctx := {| c_skip := negb (fl_no_skip_ws (flags_of (r_directives r))); c_fields := rf |}).
   pair_e ctx (r_def r) st1 gl1 st2 gl2 HR HA HC.
   - destruct Hw as [-> Hs]. destruct HR as [R1 R2]. destruct Hs as [S1 S2].
     assert (E1 : slice_until st1 s1 = slice_until st2 s2) by (unfold slice_until; rewrite R1, R2, S2; reflexivity).
     assert (E2 : range_until st1 s1 = range_until st2 s2) by (unfold range_until; rewrite R2, S2; reflexivity).
     rewrite E1, E2.
-    match goal with |- wres (fst (match ?o with _ => _ end)) _ => destruct o as [v|] end; [|exact I].
+    match goal with |- wres (fst (match ?o with _ => _ end)) _ => destruct o as [v|] end; [|triv].
     apply W_run_checks. split; assumption.
 Qed.
 
 Lemma W_char_parts nm ps : forall st1 gl1 st2 gl2, Rst st1 st2 -> an st1 -> CS gl1 ->
   wres (fst (char_parts ustate scfg tcfg evA nm ps st1 gl1)) (fst (char_parts ustate scfg tcfg evB nm ps st2 gl2)).
 Proof.
-  induction ps as [|pt ps IH]; intros st1 gl1 st2 gl2 HR HA HC; cbn [char_parts]; [exact I|].
+  induction ps as [|pt ps IH]; intros st1 gl1 st2 gl2 HR HA HC; cbn [char_parts]; [triv|].
   destruct pt as [i|a b|n].
-  - destruct (decode_item i) as [c| |]; try exact I.
+  - destruct (decode_item i) as [c| |]; try triv.
     pose proof (tw_clit scfg tcfg st1 st2 c HR) as T.
-    destruct (parse_character_literal scfg tcfg st1 c), (parse_character_literal scfg tcfg st2 c); cbn in T; try contradiction; try exact I.
+    destruct (parse_character_literal scfg tcfg st1 c), (parse_character_literal scfg tcfg st2 c); cbn in T; try contradiction; try triv.
     + destruct T as [-> T]. split; [reflexivity|exact T].
     + apply IH; auto.
-  - destruct (compile_range a b) as [x y| |]; try exact I.
+  - destruct (compile_range a b) as [x y| |]; try triv.
     pose proof (tw_range scfg tcfg st1 st2 x y HR) as T.
-    destruct (parse_character_range scfg tcfg st1 x y), (parse_character_range scfg tcfg st2 x y); cbn in T; try contradiction; try exact I.
+    destruct (parse_character_range scfg tcfg st1 x y), (parse_character_range scfg tcfg st2 x y); cbn in T; try contradiction; try triv.
     + destruct T as [-> T]. split; [reflexivity|exact T].
     + apply IH; auto.
   - pair_r n st1 gl1 st2 gl2 HR HA HC.
@@ -511,9 +514,9 @@ Proof.
   pose proof (W_char_parts (cr_name r) (cr_choices r) st1 gl1 st2 gl2 HR HA HC) as Hp.
   destruct (cr_checks r) as [|c cs]; [exact Hp|].
   destruct HR as [R1 R2]. rewrite <- R1.
-  destruct (rest st1) as [|x xs] eqn:Er; [exact I|].
-  destruct (decode1 (x :: xs)) as [[ch k]|]; [|exact I].
-  destruct (char_checks ustate hk (cr_name r) (c :: cs) ch); [exact Hp|exact I].
+  destruct (rest st1) as [|x xs] eqn:Er; [triv|].
+  destruct (decode1 (x :: xs)) as [[ch k]|]; [|triv].
+  destruct (char_checks ustate hk (cr_name r) (c :: cs) ch); [exact Hp|triv].
 Qed.
 
 Lemma W_extern r st1 gl1 st2 gl2 : Rst st1 st2 ->
@@ -523,10 +526,10 @@ Proof.
   pose proof (Pext (er_function r) (rest st1) (g_user gl1) (g_user gl2)) as P.
   destruct (h_extern hk (er_function r) (rest st1) (g_user gl1)) as [res1 u1].
   destruct (h_extern hk (er_function r) (rest st1) (g_user gl2)) as [res2 u2].
-  cbn in P. subst res2. destruct res1 as [[v k]|msg]; [|exact I].
+  cbn in P. subst res2. destruct res1 as [[v k]|msg]; [|triv].
   unfold advance_safe, advance. rewrite <- R1, <- R2.
-  destruct (Nat.ltb (length (rest st1)) k); [exact I|].
-  destruct (is_boundary (rest st1) k); [|exact I].
+  destruct (Nat.ltb (length (rest st1)) k); [triv|].
+  destruct (is_boundary (rest st1) k); [|triv].
   split; [reflexivity|split; reflexivity].
 Qed.
 
@@ -550,11 +553,11 @@ Ltac sub_e ctx e st gl HA HC :=
 Lemma U_ret {X} (v : X) st gl : an st -> CS gl -> U (MOk v st, gl).
 Proof. intros; split; assumption. Qed.
 Lemma U_err {X} e gl : CS gl -> @U X (MErr e, gl).
-Proof. intros; split; [assumption|exact I]. Qed.
+Proof. intros; split; [assumption|triv]. Qed.
 Lemma U_panic {X} p gl : CS gl -> @U X (MPanic p, gl).
-Proof. intros; split; [assumption|exact I]. Qed.
+Proof. intros; split; [assumption|triv]. Qed.
 Lemma U_fuel {X} gl : CS gl -> @U X (MFuel, gl).
-Proof. intros; split; [assumption|exact I]. Qed.
+Proof. intros; split; [assumption|triv]. Qed.
 Lemma U_fail {X} st sp gl : CS gl -> @U X (fail_at ustate scfg st sp gl).
 Proof. intro H. unfold fail_at. apply U_err. eapply CS_same; [|exact H]. reflexivity. Qed.
 
@@ -758,7 +761,7 @@ Proof.
         destruct (rule_body ustate scfg fcfg hk g evA r st gl2) as [[v s|e|p|] gb]; cbn [fst snd] in *.
         + destruct Hb as [Hc Ha]. split; [|exact Ha]. apply CS_put; [exact Hc|]. apply (Hs (COk v s)). reflexivity.
         + destruct Hb as [Hc _]. destruct (memo_closed rcfg); [|apply U_err; exact Hc].
-          split; [|exact I]. apply CS_put; [exact Hc|]. apply (Hs (CErr e)). reflexivity.
+          split; [|triv]. apply CS_put; [exact Hc|]. apply (Hs (CErr e)). reflexivity.
         + exact Hb.
         + exact Hb. }
     destruct (memo_wrap ustate scfg fcfg rcfg hk g evA r st gl1) as [[v s|e|p|] gb]; cbn [fst snd U okanch] in Hm |- *.
@@ -806,7 +809,7 @@ Proof.
     apply W_extern. exact HR.
   - cbn [run step ev_rule]. unfold rule_step. rewrite find_grule_strip, Hf. cbn [option_map].
     destruct (name_eqb n n_char); [apply W_lift; apply tw_char; exact HR|].
-    destruct (name_eqb n n_Whitespace); [apply W_lift; apply tw_ws; exact HR|exact I].
+    destruct (name_eqb n n_Whitespace); [apply W_lift; apply tw_ws; exact HR|triv].
 Qed.
 
 End UWalk.
@@ -817,7 +820,7 @@ Proof.
   induction n as [|n [IHU IHW]].
   - split.
     + split; [|split]; intros; cbn; apply U_fuel; assumption.
-    + intro m. split; [|split]; intros; cbn; exact I.
+    + intro m. split; [|split]; intros; cbn; triv.
   - assert (HU' : Uev (RunA (S n))).
     { split; [|split]; intros; cbn [run step ev_expr ev_rule ev_loop].
       - apply U_expr; assumption.
